@@ -71,7 +71,7 @@ m = {
  "setup_cmd": "./setup.sh",
  "hooks": {"guard": "verif",
            "enable": "no hook commits: tools/vxform instruments package sse from /repo's working tree at check time and the result is applied with `go build -overlay`; the build tag `verif` is reserved and unused",
-           "baseline_off_cmd": "cd /repo && GOFLAGS=-mod=mod GOPROXY=off GOSUMDB=off GOTOOLCHAIN=local go test -vet=off -count=1 ./...",
+           "baseline_off_cmd": "cd /repo && GOFLAGS=-mod=mod GOPROXY=off GOSUMDB=off GOTOOLCHAIN=local go test -json -vet=off -count=1 -timeout 25m ./...",
            "source_commits": [], "add_only": True},
  "engines": [
    {"name": "vsched", "path": "vrt/ tools/vxform/ vs/", "serves_properties": [k for k, v in CHECKS.items() if v['engine'] == 'vsched'],
